@@ -12,8 +12,9 @@
 (* loaders' documents left to right into the binder (deep merge: a later   *)
 (* source overrides a key, other keys stay).                               *)
 (* Documents are kind-consistent key trees over the leaf paths Paths; the  *)
-(* loader created by option i supplies value i for each of its paths, so   *)
-(* the effective configuration shows which source won.                     *)
+(* loader created by option i supplies the marker value opts[i].val for    *)
+(* each of its paths, so the effective configuration shows which source    *)
+(* won.  Markers may repeat: two options may carry the very same document. *)
 (***************************************************************************)
 EXTENDS Ordering, TLC
 
@@ -42,7 +43,7 @@ Parts == [j \in 1..Len(loaders) |-> Part(loaders[j])]
 \* the unordered loaders keep their list order (noneOrderedComponents is appended in input order)
 KeepsListOrder(p) == \A a, b \in 1..Len(p) : (a < b /\ Parts[p[a]].cls = "un" /\ Parts[p[b]].cls = "un") => p[a] < p[b]
 Sequences == {p \in [1..Len(loaders) -> 1..Len(loaders)] : IsSortedPerm(p, Parts) /\ KeepsListOrder(p)}
-Merge(m, i) == [p \in Paths |-> IF p \in sc.opts[i].keys THEN i ELSE m[p]]
+Merge(m, i) == [p \in Paths |-> IF p \in sc.opts[i].keys THEN sc.opts[i].val ELSE m[p]]
 RECURSIVE Fold(_, _, _)
 Fold(p, j, m) == IF j > Len(p) THEN m ELSE Fold(p, j + 1, Merge(m, loaders[p[j]]))
 \* Configure.Initialize: sort, then merge left to right
@@ -64,9 +65,9 @@ C15_AddMonotone == [][(k' = k + 1 /\ sc.opts[k + 1].kind # "set") => (Len(loader
 \* effective configuration = deep merge in the loader sequence: last supplier wins, single suppliers stay visible
 Suppliers(p) == {i \in Range(Sources(sc.opts, NO)) : p \in sc.opts[i].keys}
 IsFile(i) == sc.opts[i].lk = "file"
-Winner(p) ==   \* the suppliers that may come last: the last non-file one if any, else any file (ties among files are free)
+Winner(p) ==   \* the values that may win: of the last non-file supplier if any, else of any file (ties among files are free)
   LET S == Suppliers(p)  nf == {i \in S : ~IsFile(i)} IN
-  IF S = {} THEN {None} ELSE IF nf # {} THEN {CHOOSE i \in nf : \A j \in nf : j <= i} ELSE S
+  IF S = {} THEN {None} ELSE IF nf # {} THEN {sc.opts[CHOOSE i \in nf : \A j \in nf : j <= i].val} ELSE {sc.opts[i].val : i \in S}
 C15_Fold == phase = "ready" => \A p \in Paths : eff[p] \in Winner(p)
-C15_SingleSupplierVisible == phase = "ready" => \A p \in Paths : (\E i \in Suppliers(p) : Suppliers(p) = {i}) => eff[p] \in Suppliers(p)
+C15_SingleSupplierVisible == phase = "ready" => \A p \in Paths : (\E i \in Suppliers(p) : Suppliers(p) = {i}) => eff[p] \in {sc.opts[i].val : i \in Suppliers(p)}
 =============================================================================
